@@ -443,11 +443,16 @@ Definition sch_params3 := Sch [(3, sch_scalar)] [].     (* AesCmacKey: params = 
 Definition sch_ctr_hmac := Sch [(2, sch_params2); (3, sch_params2)] [].
 Definition sch_ecdsa_priv := Sch [(2, sch_params2)] [].
 
-(* int(exponent.Int64()) of new(big.Int).SetBytes(e): the low 64 bits as a
-   signed value; NewParameters wants f4 <= e <= maxExponent, odd *)
-Definition rsa_exponent (e : bytes) : N := be_val e mod 18446744073709551616.
-Definition rsa_exponent_parse_ok (e : N) : bool :=
-  (rsa_f4 <=? e) && (e <=? rsa_max_exponent) && (e mod 2 =? 1).
+(* exponent := new(big.Int).SetBytes(e); !exponent.IsInt64() is an error,
+   then int(exponent.Int64()); NewParameters wants f4 <= e <= maxExponent, odd *)
+Definition rsa_exponent (e : bytes) : option N :=
+  if be_val e <? 9223372036854775808 then Some (be_val e) else None.
+Definition rsa_exponent_parse_ok (e : option N) : bool :=
+  match e with
+  | Some e => (rsa_f4 <=? e) && (e <=? rsa_max_exponent) && (e mod 2 =? 1)
+  | None => false
+  end.
+Definition exponent_value (e : option N) : N := match e with Some e => e | None => 0 end.
 Definition rsa_hash_ok (h : N) : bool := (h =? h_sha256) || (h =? h_sha384) || (h =? h_sha512).
 (* int32 field as a signed value is > 0 *)
 Definition int32_positive (v : N) : bool := (1 <=? v) && (v <? 2147483648).
@@ -558,7 +563,7 @@ Definition parse_key (kd : keydata) (prefix idreq : N) : outcome pkd :=
     let e := rsa_exponent (get_len 4 fs) in
     okb ((get_u32 1 fs =? 0) && variant_ok prefix idreq && rsa_hash_ok hash
          && (rsa_min_bits_parse <=? bits) && rsa_exponent_parse_ok e)
-        (PRsaPkcs1Pub bits e hash)
+        (PRsaPkcs1Pub bits (exponent_value e) hash)
   else if url_is kd u_rsa_pss_pub then
     if negb (mat =? km_public) then Err else
     if negb (wire_ok sch_params2 v) then Err else
@@ -570,7 +575,7 @@ Definition parse_key (kd : keydata) (prefix idreq : N) : outcome pkd :=
          && rsa_hash_ok hash && rsa_hash_ok mgf && (mgf =? hash)
          && variant_ok prefix idreq
          && (rsa_min_bits_parse <=? bits) && rsa_exponent_parse_ok e)
-        (PRsaPssPub bits e hash salt)
+        (PRsaPssPub bits (exponent_value e) hash salt)
   else
     (* no parser registered: NewFallbackProtoKey / NewFallbackProtoPrivateKey,
        which only need calculateOutputPrefix to know the prefix type *)
@@ -616,10 +621,12 @@ Definition unmodelled_url (kd : keydata) : bool :=
 (* ------------------------------------------------------------------ *)
 (* keyset/handle.go keysetToEntries + newFromEntries                   *)
 (* ------------------------------------------------------------------ *)
-(* emod: the key type is one of the modelled ones (its parser and primitive
-   constructor are transcribed above) *)
+(* eurl/evalue/emat: the serialization the key object was parsed from (what
+   the fallback key keeps verbatim); emod: the key type is one of the modelled
+   ones (its parser and primitive constructor are transcribed above) *)
 Record entry := mkE { eid : N; estatus : N; eprim : bool; ereq : option N;
-                      eprefix : N; eurl : bytes; ekey : pkd; emod : bool }.
+                      eprefix : N; eurl : bytes; evalue : bytes; emat : N;
+                      ekey : pkd; emod : bool }.
 Definition handle := list entry.
 
 Definition to_entry (primary : N) (k : pkey) : outcome entry :=
@@ -632,7 +639,7 @@ Definition to_entry (primary : N) (k : pkey) : outcome entry :=
       else
         Ok (mkE (k_id k) (k_status k) (k_id k =? primary)
                 (if k_prefix k =? pt_raw then None else Some (k_id k))
-                (k_prefix k) (kd_url kd) d (modelled_url kd)))
+                (k_prefix k) (kd_url kd) (kd_value kd) (kd_mat kd) d (modelled_url kd)))
   end.
 
 Fixpoint to_entries (primary : N) (keys : list (option pkey)) : outcome (list entry) :=
@@ -687,15 +694,16 @@ Definition out_prefix (e : entry) : N :=
   | _ => eprefix e
   end.
 
-(* keyset/handle.go hasSecrets (nil-safe getters: a nil key or nil key data
-   has material type UNKNOWN_KEYMATERIAL) *)
+(* keyset/handle.go hasSecrets: only ASYMMETRIC_PUBLIC and REMOTE are free of
+   secrets, every other value of the (open) enum counts as secret (nil-safe
+   getters: a nil key or nil key data has material type UNKNOWN_KEYMATERIAL) *)
 Definition key_material (k : option pkey) : N :=
   match k with
   | Some k => match k_data k with Some kd => kd_mat kd | None => km_unknown end
   | None => km_unknown
   end.
 Definition secret_material (m : N) : bool :=
-  (m =? km_unknown) || (m =? km_private) || (m =? km_symmetric).
+  negb ((m =? km_public) || (m =? km_remote)).
 Definition has_secrets (ks : keyset) : bool :=
   existsb (fun k => secret_material (key_material k)) (ks_keys ks).
 
